@@ -49,7 +49,7 @@ func mustExpr(s string) *gram.Expr {
 
 func consumerSpaces(maxRoot int) []spaceSpec {
 	var out []spaceSpec
-	for _, body := range []string{"(any a a a)", "(any a (seq a a) (seq a a a))", "(any a a a a a)", "(any (seq a) (seq a b) a)"} {
+	for _, body := range []string{"(any a a a)", "(any a (seq a a) (seq a a a))", "(any a a a a a)", "(any (seq a) (seq a b) a)", "(opt a)"} {
 		out = append(out, spaceSpec{sp: &gram.Space{Name: "consumers of S0!=" + body, Alpha: consumers, HasRoot: true, Min: 2, Max: maxRoot,
 			FixedShared: []*gram.Expr{mustExpr(body)}, FixedSharedMemo: []bool{true}}, maxLen: 3, alpha: []byte{'a', 'b'}, noSubsets: true})
 	}
@@ -73,6 +73,7 @@ func c07Specs(tier string) []spaceSpec {
 		{sp: &gram.Space{Name: "root+2shared", Alpha: gram.Full, NSh: 2, HasRoot: true, Min: 3, Max: 5}, maxLen: 3, alpha: ab},
 		{sp: &gram.Space{Name: "full-1nt", Alpha: gram.Full, NNT: 1, Min: 1, Max: 4}, maxLen: 4, alpha: ab},
 		{sp: &gram.Space{Name: "core-1nt", Alpha: gram.Core, NNT: 1, Min: 5, Max: 6}, maxLen: 3, alpha: ab},
+		{sp: &gram.Space{Name: "rep-1nt", Alpha: gram.Rep, NNT: 1, Min: 5, Max: 6}, maxLen: 3, alpha: ab},
 	}...)
 }
 
